@@ -29,12 +29,13 @@ RULE = ("all AxisMetadata dataclasses found in abtem.core.axes x seeded field va
         "operation in {roundtrip, getitem, concatenate, coordinates}; getitem items: ints (python/NumPy, negative), slices "
         "(all sign/step/out-of-range forms incl. empty results), lists, int arrays, boolean masks. Non-trivial: the "
         "selection is a proper subset / the axis has non-default fields / n > 1.")
-BOUNDS = {"n_values": [0, 7], "n_coordinates": [0, 40], "variants_per_class": {"quick": 4, "thorough": 40},
-          "items_per_axis": {"quick": 10, "thorough": 60}, "value_kinds": VALUE_KINDS}
+BOUNDS = {"n_values": [0, 7], "n_coordinates": [0, 40], "variants_per_class": {"quick": 4, "thorough": 12},
+          "items_per_axis": {"quick": 10, "thorough": 30}, "value_kinds": VALUE_KINDS}
 EXHAUSTIVE = False
 ASSUMPTIONS = [
     "field equality: containers (tuple/list/ndarray) element-wise, NumPy scalars by value, floats exactly",
-    "coordinates: |c_i - (offset + i*sampling)| <= 1e-12 * (|offset| + n*|sampling|) (np.linspace rounding)",
+    "coordinates: |c_i - (offset + i*sampling)| <= 1e-12 * (|offset| + n*|sampling|) (np.linspace rounding); 1e-6 when "
+    "offset or sampling is given as np.float32 (NumPy then computes the end point in single precision)",
     "ScaleAxis is not an AxisMetadata subclass and is not covered",
 ]
 CONTRACTS = ["abtem/core/axes.py:axis_to_dict", "abtem/core/axes.py:axis_from_dict", "abtem/core/axes.py:AxisMetadata.to_dict",
@@ -299,7 +300,9 @@ def _run_coordinates(case):
     tag = _tag(case)
     scale = abs(off) + n * abs(smp)
     cc = np.asarray(c, dtype=float)
-    ok = len(c) == n and cc.shape == ref.shape and (n == 0 or bool(np.all(np.abs(cc - ref) <= 1e-12 * scale)))
+    single = isinstance(ax.offset, np.float32) or isinstance(ax.sampling, np.float32)
+    tol = (1e-6 if single else 1e-12) * scale
+    ok = len(c) == n and cc.shape == ref.shape and (n == 0 or bool(np.all(np.abs(cc - ref) <= tol)))
     err = float(np.max(np.abs(cc - ref))) if (n and cc.shape == ref.shape) else 0.0
     return [Res("C35/LinearAxis.coordinates/affine", ok,
                 f"{tag}: offset={off!r} sampling={smp!r}: len {len(c)} (expected {n}), max|c_i-(offset+i*sampling)|={err:.3e}, "
